@@ -1,1 +1,95 @@
 //! Verification facade (cfg-gated): syncer family.  See `crate::verif`.
+//!
+//! * [`calculate_range_to_fetch`] — the module-private range calculation of the syncer.
+//! * [`VSyncEvents`] — an `EventChannel` (the publisher side is crate-private).
+//! * [`VSyncer`] / [`start_syncer`] — the real `Syncer` started on a mocked `P2p`.
+
+use std::sync::Arc;
+use std::time::Duration;
+
+use crate::block_ranges::BlockRange;
+use crate::events::{EventChannel, EventSubscriber};
+use crate::store::Store;
+use crate::syncer::{Syncer, SyncerArgs, SyncerError, SyncingInfo};
+use crate::verif::mock_p2p::VP2p;
+
+/// Forwards to `syncer::calculate_range_to_fetch`.
+pub fn calculate_range_to_fetch(
+    subjective_head_height: u64,
+    synced_headers: &[BlockRange],
+    limit: u64,
+) -> BlockRange {
+    crate::syncer::verif_calculate_range_to_fetch(subjective_head_height, synced_headers, limit)
+}
+
+/// Event channel whose subscriber side the harness reads.
+pub struct VSyncEvents {
+    channel: EventChannel,
+}
+
+impl VSyncEvents {
+    pub fn new() -> VSyncEvents {
+        VSyncEvents {
+            channel: EventChannel::new(),
+        }
+    }
+
+    pub fn subscribe(&self) -> EventSubscriber {
+        self.channel.subscribe()
+    }
+}
+
+impl Default for VSyncEvents {
+    fn default() -> Self {
+        VSyncEvents::new()
+    }
+}
+
+/// The real `Syncer`.
+pub struct VSyncer<S>
+where
+    S: Store + 'static,
+{
+    inner: Syncer<S>,
+}
+
+/// Starts the real `Syncer` (must be called inside a tokio runtime).
+pub fn start_syncer<S>(
+    p2p: &VP2p,
+    store: Arc<S>,
+    batch_size: u64,
+    sampling_window: Duration,
+    pruning_window: Duration,
+    events: &VSyncEvents,
+) -> Result<VSyncer<S>, SyncerError>
+where
+    S: Store + 'static,
+{
+    let inner = Syncer::start(SyncerArgs {
+        p2p: p2p.p2p(),
+        store,
+        event_pub: events.channel.publisher(),
+        batch_size,
+        sampling_window,
+        pruning_window,
+    })?;
+
+    Ok(VSyncer { inner })
+}
+
+impl<S> VSyncer<S>
+where
+    S: Store + 'static,
+{
+    pub fn stop(&self) {
+        self.inner.stop()
+    }
+
+    pub async fn join(&self) {
+        self.inner.join().await
+    }
+
+    pub async fn info(&self) -> Result<SyncingInfo, SyncerError> {
+        self.inner.info().await
+    }
+}
